@@ -1,5 +1,11 @@
 package main
 
+import (
+	"go/ast"
+	"go/types"
+	"strings"
+)
+
 func init() { register("C18", "other", checkC18) }
 
 func notCmd(rel string) bool { return rel != "cmd" }
@@ -33,6 +39,7 @@ func checkC18(w *World, r *Result) {
 	}
 	r.note("functions_with_partial_operations", len(perFn))
 	pkgIDRule(w, r, notCmd)
+	primaryInRange(w, r)
 	nrec := runREC(w, r, notCmd)
 	r.note("recursive_sccs", nrec)
 	nsw := runEXHdefaults(w, r, notCmd)
@@ -47,5 +54,115 @@ func checkC18(w *World, r *Result) {
 	}
 	if nsw < 8 {
 		Undecided("only %d node type switches found", nsw)
+	}
+}
+
+// primaryInRange (OBL-PRE side condition of the justified `Columns[Primary()]` accesses): every value Table.Primary
+// returns is a constant ("not found", tested by the callers) or a position in Columns -- the key of a loop over
+// Columns, or a stored field that is only ever assigned len(Columns) / such a key.
+func primaryInRange(w *World, r *Result) {
+	prim := w.MustFunc("analysis/sql.(Table).Primary")
+	info := prim.Pkg.TypesInfo
+	columnsKey := func(fi *FuncInfo, e ast.Expr) (bool, string) {
+		finfo := fi.Pkg.TypesInfo
+		if call, ok := ast.Unparen(e).(*ast.CallExpr); ok && isBuiltinCall(finfo, call, "len") && strings.HasSuffix(es(call.Args[0]), ".Columns") {
+			return true, ""
+		}
+		if call, ok := ast.Unparen(e).(*ast.CallExpr); ok && len(call.Args) >= 1 && strings.HasSuffix(es(call.Args[0]), ".Columns") {
+			switch fullName(calleeOf(finfo, call)) {
+			case "slices.IndexFunc", "slices.Index":
+				return true, "" // -1 or a position in its first argument
+			}
+		}
+		id := identOf(e)
+		if id == nil {
+			return false, "`" + es(e) + "` is not a position in Columns"
+		}
+		// counted loop `for i := 0; i < len(x.Columns); i++`
+		counted := false
+		ast.Inspect(fi.Decl.Body, func(y ast.Node) bool {
+			fs, ok := y.(*ast.ForStmt)
+			if !ok || fs.Cond == nil {
+				return true
+			}
+			be, ok := ast.Unparen(fs.Cond).(*ast.BinaryExpr)
+			if !ok || be.Op.String() != "<" || identOf(be.X) == nil || objOf(finfo, identOf(be.X)) != objOf(finfo, id) {
+				return true
+			}
+			if call, ok := ast.Unparen(be.Y).(*ast.CallExpr); ok && isBuiltinCall(finfo, call, "len") && strings.HasSuffix(es(call.Args[0]), ".Columns") {
+				counted = true
+			}
+			return true
+		})
+		if counted {
+			return true, ""
+		}
+		good, why := false, "`"+es(e)+"` is not the key of a loop over Columns"
+		ast.Inspect(fi.Decl.Body, func(y ast.Node) bool {
+			rs, ok := y.(*ast.RangeStmt)
+			if !ok || identOf(rs.Key) == nil || finfo.Defs[identOf(rs.Key)] != objOf(finfo, id) {
+				return true
+			}
+			if strings.HasSuffix(es(rs.X), ".Columns") {
+				good = true
+			} else {
+				why = "the index is a position in " + es(rs.X) + ", not in Columns: when the loop skips an element that is not a column (an unexported field before Id) Columns[Primary()] is out of range or the wrong column"
+			}
+			return true
+		})
+		return good, why
+	}
+	nret := 0
+	ast.Inspect(prim.Decl.Body, func(x ast.Node) bool {
+		ret, ok := x.(*ast.ReturnStmt)
+		if !ok || len(ret.Results) != 1 {
+			return true
+		}
+		nret++
+		res := ast.Unparen(ret.Results[0])
+		if tv := info.Types[res]; tv.Value != nil {
+			return true
+		}
+		if sel, ok := res.(*ast.SelectorExpr); ok {
+			field, _ := info.Uses[sel.Sel].(*types.Var)
+			if field == nil || !field.IsField() {
+				r.bad("OBL-PRE", prim.Name, "return "+es(res), w.Pos(ret.Pos()), "Table.Primary returns something that is neither a loop key over Columns nor a stored index")
+				return true
+			}
+			nst := 0
+			for _, fi := range sortedFuncs(w) {
+				if fi.Pkg != prim.Pkg || fi.Decl.Body == nil {
+					continue
+				}
+				finfo := fi.Pkg.TypesInfo
+				ast.Inspect(fi.Decl.Body, func(y ast.Node) bool {
+					as, ok := y.(*ast.AssignStmt)
+					if !ok || len(as.Lhs) != 1 || len(as.Rhs) != 1 {
+						return true
+					}
+					s2, ok := ast.Unparen(as.Lhs[0]).(*ast.SelectorExpr)
+					if !ok || finfo.Uses[s2.Sel] != types.Object(field) {
+						return true
+					}
+					if tv := finfo.Types[as.Rhs[0]]; tv.Value != nil {
+						return true
+					}
+					nst++
+					good, why := columnsKey(fi, as.Rhs[0])
+					r.cond(good, "OBL-PRE", fi.Name, "Primary(): "+es(as.Lhs[0])+" = "+normLocals(finfo, as.Rhs[0]), w.Pos(as.Pos()), "the stored primary index is a position in Columns", "SIDE condition of Columns[Primary()] broken: "+why)
+					return true
+				})
+			}
+			if nst == 0 {
+				Undecided("OBL-PRE: the index Table.Primary returns is never assigned")
+			}
+			return true
+		}
+		good, why := columnsKey(prim, res)
+		r.cond(good, "OBL-PRE", prim.Name, "Primary(): return of a Columns key", w.Pos(ret.Pos()), "the returned index is the key of a loop over Columns", "SIDE condition of Columns[Primary()] broken: "+why)
+		return true
+	})
+	if nret == 0 {
+		Undecided("OBL-PRE: Table.Primary has no return statement")
 	}
 }
